@@ -41,6 +41,7 @@ THEOREMS = [
     "C20.late_gets_terminal_only",
     "C20.late_handlerless_raises",
     "C20.after_dispose_raises",
+    "C20.subject_natural",
     "C20.run_reachable",
 ]
 KIND = "subject"
